@@ -44,11 +44,11 @@ Never == 9
 
 EagerSrcs == {"ready_val", "ready_err", "ready_exc", "before_val", "after_val", "after_err", "after_exc",
               "on_after_val", "run_val", "run_throw", "acontract_val"}
-LazySrcs  == {"task_val", "task_err", "sched_val", "sched_throw", "lcontract_val"}
+LazySrcs  == {"task_val", "task_err", "task_exc", "sched_val", "sched_throw", "lcontract_val"}
 OnSrcs    == {"on_after_val", "run_val", "run_throw"}          \* holder starts as FutureOn (inherited e1)
 
 \* eager twin of a lazy source
-Twin(s) == CASE s = "task_val" -> "ready_val" [] s = "task_err" -> "ready_err" [] s = "sched_val" -> "run_val"
+Twin(s) == CASE s = "task_val" -> "ready_val" [] s = "task_err" -> "ready_err" [] s = "task_exc" -> "ready_exc" [] s = "sched_val" -> "run_val"
              [] s = "sched_throw" -> "run_throw" [] s = "lcontract_val" -> "acontract_val" [] OTHER -> s
 
 Val(n) == [st |-> "val", v |-> n]
@@ -96,7 +96,7 @@ Runs(arg, r) == \/ arg = "R"
 (***************************************************************************)
 Acc0 == [cur |-> Val(0), invoked |-> <<>>, ran |-> <<>>, inh |-> "inline", on |-> FALSE,
          sub |-> [e \in Execs |-> 0], calls |-> [e \in Execs |-> 0], drops |-> [e \in Execs |-> 0],
-         allocs |-> 0, valid |-> TRUE]
+         allocs |-> 0, copies |-> 0, valid |-> TRUE]
 
 \* one submission to executor e under rejection table rej; returns <<acc', dropped>>
 Submit(acc, e, rej) ==
@@ -112,6 +112,7 @@ Source(src, rej, headExec) ==
   CASE src \in {"ready_val", "before_val", "after_val", "task_val"} /\ headExec = "none" -> [a0 EXCEPT !.cur = Val(1)]
     [] src \in {"ready_err", "after_err", "task_err"} /\ headExec = "none" -> [a0 EXCEPT !.cur = Err]
     [] src \in {"ready_exc", "after_exc"} -> [a0 EXCEPT !.cur = Exc(3)]
+    [] src = "task_exc" /\ headExec = "none" -> [a0 EXCEPT !.cur = Exc(3)]
     [] src = "on_after_val" -> [a0 EXCEPT !.cur = Val(1), !.inh = "e1", !.on = TRUE]
     [] src \in {"acontract_val", "lcontract_val"} /\ headExec = "none" ->
          [a0 EXCEPT !.cur = Val(1), !.invoked = <<0>>, !.ran = <<"-">>]
@@ -124,6 +125,7 @@ Source(src, rej, headExec) ==
              res == IF sd[2] THEN Err
                     ELSE CASE src \in {"run_val", "sched_val", "lcontract_val", "acontract_val", "task_val"} -> Val(1)
                            [] src \in {"task_err"} -> Err
+                           [] src \in {"task_exc"} -> Exc(3)
                            [] OTHER -> Exc(1)
          IN  [a1 EXCEPT !.cur = res,
                         !.invoked = IF sd[2] \/ ~isFn THEN <<>> ELSE <<0>>,
@@ -148,6 +150,8 @@ StepFn(acc, i, s, rej) ==
                  !.inh = IF s.att \in Execs THEN s.att ELSE @,
                  !.on = (@ \/ s.att \in Execs),
                  !.allocs = @ + 1 + (IF run THEN InnerAllocs(s.beh) ELSE 0),
+                 \* the only copy of a value the library may make: reading it out of a SharedFuture's state (which keeps it)
+                 !.copies = @ + (IF run /\ s.beh \in {"shared_ready", "shared_pending"} THEN 1 ELSE 0),
                  !.valid = (@ /\ ok)]
 
 RECURSIVE Fold(_, _, _, _)
@@ -176,6 +180,7 @@ Expected(p) ==
     ran     |-> a.ran,
     submits |-> a.sub, calls |-> a.calls, drops |-> a.drops,
     allocs  |-> a.allocs,
+    copies  |-> a.copies,
     \* flattening a SharedFuture that has another holder must leave that holder's Result intact
     cache   |-> IF \E k \in 1..Len(a.invoked) : a.invoked[k] > 0 /\ p.steps[a.invoked[k]].beh = "shared_cached_exc"
                 THEN "exc:2" ELSE "-" ]
